@@ -387,8 +387,8 @@ func rbIsolate(self string, prefix []*rbCase, first rbBatchResult) rbRec {
 }
 
 // Does an input that exceeds the limit terminate at all?  One more run with a generous limit: an input
-// that is only slow is reported as "slow" (with its time), not as a hang.  Inputs stuck in the same
-// code (a common non-generic actionlint frame on the stack) share one classification.
+// that is only slow is reported as "slow" (with its time), not as a hang.  Inputs that do NOT terminate and
+// are stuck in the same code (a common non-generic actionlint frame on the stack) share one classification.
 var (
 	rbHangMu    sync.Mutex
 	rbHangKnown []*rbHangClass
@@ -443,7 +443,7 @@ func rbClassifyHang(self string, cand *rbCase, rec *rbRec) {
 	// same class: the innermost actionlint frame of this input is on the stack of the class's first member
 	if len(frames) > 0 {
 		for _, k := range rbHangKnown {
-			if k.frames[frames[0]] {
+			if !k.slow && k.frames[frames[0]] {
 				cl = k
 				break
 			}
@@ -478,7 +478,11 @@ func rbClassifyHang(self string, cand *rbCase, rec *rbRec) {
 		} else {
 			cl.how = fmt.Sprintf("no result within %d ms", rbSlowLimitMs)
 		}
-		rbHangKnown = append(rbHangKnown, cl)
+		if !cl.slow {
+			// only non-termination is shared between inputs stuck in the same code: how long a slow input
+			// takes depends on the input (2^30 paths end, 2^80 do not)
+			rbHangKnown = append(rbHangKnown, cl)
+		}
 	}
 	rec.Alone = append(rec.Alone, cl.how)
 	if cl.slow {
